@@ -3,7 +3,10 @@ EXTENDS BodyCheck, Json, CSV, SequencesExt
 
 JsonFamily == {Json, JsonUtf8, AppWild, AnyWild}
 DeclSets == {d \in SUBSET JsonFamily : d # {} /\ Cardinality(d) <= 3}
-Hdrs == {[absent |-> TRUE], Json, JsonUtf8, JsonAscii, Text}
+(* a structured-suffix type (RFC 6839) is a media type of its own: "application/problem+json" is declared only by an   *)
+(* entry that spells it, by application/* or by */*, never by application/json                                          *)
+ProblemJson == MT("application", "problem+json", "")
+Hdrs == {[absent |-> TRUE], Json, JsonUtf8, JsonAscii, Text, ProblemJson}
 
 N(q) == Num(q)
 St(cs) == Str(cs)
@@ -61,6 +64,10 @@ Init ==
    \/ \E fam \in {"json", "form", "multipart"}, sc \in {"S5", "S6"}, v \in EmptyVals :
         /\ (fam = "form" => ~\E i \in DOMAIN v.v : v.v[i] = St(<<>>))   \* "s=" in a urlencoded body: the open region "empty values" (as for parameters)
         /\ case = [part |-> "decode", family |-> fam, schema |-> sc, v |-> v, excludeRO |-> TRUE, enc |-> "default", clen |-> "known", setDefaults |-> FALSE]
+   \* the JSON text "null" as the body: present, so never "missing"; accepted exactly when the schema is nullable
+   \/ \E sc \in {"SN", "S2"}, v \in {Null, Obj(<<"n">>, <<N(4)>>)}, req \in BOOLEAN :
+        case = [part |-> "decode", family |-> "json", schema |-> sc, v |-> v, excludeRO |-> TRUE, enc |-> "default", clen |-> "known",
+                setDefaults |-> FALSE, bodyRequired |-> req]
    \/ \E v \in TextVals :
         case = [part |-> "decode", family |-> "text", schema |-> "text", v |-> v, excludeRO |-> FALSE, enc |-> "default", clen |-> "known", setDefaults |-> FALSE]
 Next == UNCHANGED case
